@@ -159,7 +159,12 @@ def run_path(job):
     signal.signal(signal.SIGALRM, _alarm)
     signal.alarm(20)
     try:
-        return _run_path(job)
+        try:
+            return _run_path(job)
+        except _Watchdog:
+            raise
+        except Exception as ex:      # noqa - raised while results were being compared: a verdict, not a harness error
+            return 0, {"step": -1, "op": {"op": "?"}, "what": f"the results cannot be examined: {type(ex).__name__}: {ex}", "fid": None}
     except _Watchdog:
         return 0, {"step": -1, "op": {"op": "?"}, "what": "program did not terminate within 20 s", "fid": None}
     finally:
